@@ -380,7 +380,7 @@ class Case:
 
 def run_case(rep: Report, prop, qual, name, setup, post, *, contracts=None, loop_rules=None, lib=None,
              scope="all-shapes", replay=None, timeout_s=10.0, expect="return", inline=(), clauses=None,
-             site_obligations=True, max_paths=400):
+             site_obligations=True, max_paths=400, loop_end=False):
     """Symbolically execute `qual` on the inputs built by setup(interp, ctx) over every feasible path.
     post(interp, ctx, outcome, value, aux) yields (clause, status, backend, secs, detail) tuples or
     (clause, nc_a, nc_b) equalities or (clause, z3cond).  A clause is proved iff proved on every path.
@@ -425,7 +425,7 @@ def run_case(rep: Report, prop, qual, name, setup, post, *, contracts=None, loop
                 if interp is not None:
                     rep.inlined |= interp.inlined
                     rep.used_contracts |= interp.used_contracts
-                if outcome == "abort" and "loop_end" in ctx.ghost:
+                if loop_end and outcome == "abort" and "loop_end" in ctx.ghost:
                     outcome = "loop_end"
                 if outcome != "abort":
                     for item in post(interp, ctx, outcome, val, body.aux) or []:
